@@ -72,6 +72,34 @@ func init() {
 		Models:      []string{"M-gob: transmit function (exported fields; zero scalars and pointers to zero scalars not sent; empty slices not sent; empty maps kept; registered interface types; GobEncoder/GobDecoder methods executed from SSA). The rules are those probed against encoding/gob in go1.23; every witness is replayed through the real gob", "M-json"},
 	})
 	reg(&PropSpec{
+		ID: "C02", Prefix: "vh_C02_", MaxSteps: 20000000,
+		Quick:    Tier{Params: map[string]int{"kwpos": 4, "spellings": 2, "slots": 3, "nested_targets": 1}},
+		Thorough: Tier{Params: map[string]int{"kwpos": 12, "spellings": 3, "slots": 3, "nested_targets": 1, "chain_orders": 1}},
+		Bounds: []string{
+			"schemas family: three documents (file:///w/root.json with definitions A,B; file:///w/sub/a.json with C; file:///x/c.json with D); each of A,B,C holds, at a keyword position chosen among kwpos of {properties, items, tuple items, allOf, anyOf, oneOf, not, additionalProperties, additionalItems, patternProperties, dependencies, definitions}, either nothing or a $ref to one of A,B,C,D (in one of `spellings` spellings), to the whole document sub/a.json, or to a pointer below a definition (fragment-only / relative path with ../ / absolute URL); all combinations explored (every cycle topology over these nodes arises); property name needs ~0/~1 escaping",
+			"chains family: root parameters/responses/path item that reference (or not) parameters/responses/path items of two other documents, second hops local to those documents or back into the root; same names with different content in different documents so that a wrong-document resolution changes the meaning",
+			"AbsoluteCircularRef symbolic; iteration order of every map of the object model (definitions, properties, parameters, responses, paths) is a symbolic permutation in the schemas family",
+			"oracle (harness Go code, executed by the same engine, natively on replay): coinductive comparison of the unfoldings of input and output root documents, following $refs with net/url ResolveReference against the URL of the containing document and RFC 6901 evaluation on generic JSON",
+		},
+		Outside:     []string{"more documents / definitions / slots, several slots per definition, schemas with id (C04), YAML, Windows paths, byte-level URL arithmetic for arbitrary strings (C11/C12)"},
+		Assumptions: []string{"all strings of the world are concrete; selectors are explored exhaustively (finite-domain choice), options and map orders symbolically", "expansion succeeds (failures are C08's subject)"},
+		Models:      []string{"M-json", "M-reflect", "M-regexp", "lazy meta-schemas", "M-sync (sequential)"},
+	})
+	reg(&PropSpec{
+		ID: "C03", Prefix: "vh_C03_", MaxSteps: 20000000,
+		Quick:    Tier{Params: map[string]int{"kwpos": 4, "spellings": 2, "slots": 3, "nested_targets": 1}},
+		Thorough: Tier{Params: map[string]int{"kwpos": 12, "spellings": 3, "slots": 3, "nested_targets": 1}},
+		Bounds: []string{
+			"schemas family: three documents (file:///w/root.json with definitions A,B; file:///w/sub/a.json with C; file:///x/c.json with D); each of A,B,C holds, at a keyword position chosen among kwpos of {properties, items, tuple items, allOf, anyOf, oneOf, not, additionalProperties, additionalItems, patternProperties, dependencies, definitions}, either nothing or a $ref to one of A,B,C,D (in one of `spellings` spellings), to the whole document sub/a.json, or to a pointer below a definition (fragment-only / relative path with ../ / absolute URL); all combinations explored (every cycle topology over these nodes arises); property name needs ~0/~1 escaping",
+			"chains family: root parameters/responses/path item that reference (or not) parameters/responses/path items of two other documents, second hops local to those documents or back into the root; same names with different content in different documents so that a wrong-document resolution changes the meaning",
+			"AbsoluteCircularRef symbolic; iteration order of every map of the object model (definitions, properties, parameters, responses, paths) is a symbolic permutation in the schemas family",
+			"oracle: cycle analysis of the input reference graph on generic JSON (a node is on a cycle iff some chain of references from it reaches it or a container of it); every $ref of the output must resolve from the root location to such a node, have the absolute / root-relative form the option prescribes; acyclic inputs must come out $ref-free and identical under a second, independently ordered expansion",
+		},
+		Outside:     []string{"as C02"},
+		Assumptions: []string{"as C02"},
+		Models:      []string{"as C02"},
+	})
+	reg(&PropSpec{
 		ID: "C11", Prefix: "vh_C11_",
 		Quick:    Tier{Params: map[string]int{"segs": 2, "seg_len": 2}},
 		Thorough: Tier{Params: map[string]int{"segs": 3, "seg_len": 2}},
